@@ -259,8 +259,15 @@ func checkC11(c *an.Ctx) {
 		c.Und("C11.1", "output:Write methods", token.NoPos, "no Write method found in pkg/output")
 	}
 
+	// … and must report the full length: the decorator stands before the task log in the MultiWriter, which
+	// stops at the first writer that reports a short count (io.Writer contract, the rule of C19.1)
+	writerContract(c, "C11.1")
+
 	// C11.2 via the Run trace
 	checkRunTable(c, "C11.2", map[string]bool{"store": true})
+	// the store is reached only when the job walk returns nil — also after an allowed failure of the last
+	// command (the execute table of C06.3 with its final-return row)
+	executeTable(c, r, "C11.2", false)
 	// the store is handed Run's task
 	sameTask := false
 	an.EachInstr(r.store, func(in ssa.Instruction) {
